@@ -46,6 +46,12 @@ try:
     tests = re.findall(r'^func (Test\w+)\(', code, re.M)
     dst = os.path.join(wt, pdir, "zz_seed_demo_test.go")
     shutil.copy(demo, dst)
+    # helper test files delivered next to the demo (same package) go along
+    for k, extra in enumerate(demos[1:]):
+        ecode = open(extra).read()
+        if re.search(r'^package (\w+)', ecode, re.M).group(1) == pkg:
+            shutil.copy(extra, os.path.join(wt, pdir, f"zz_seed_demo_extra{k}_test.go"))
+            tests += re.findall(r'^func (Test\w+)\(', ecode, re.M)
     cmd = f"go test {tags} -vet=off -count=1 -run '^({'|'.join(tests)})$' ./{pdir}/ 2>&1"
     log["demo_cmd"] = cmd; log["demo_file"] = os.path.basename(demo); log["demo_dir"] = pdir
     w = sh(cmd, wt)
@@ -61,7 +67,8 @@ try:
         out = f"/verif/seeded/{pid}-{x}"
         os.makedirs(out, exist_ok=True)
         open(os.path.join(out, "patch.diff"), "w").write(newpatch)
-        shutil.copy(demo, os.path.join(out, os.path.basename(demo) + ("" if demo.endswith(".txt") else ".txt")))
+        for d in demos:
+            shutil.copy(d, os.path.join(out, os.path.basename(d) + ("" if d.endswith(".txt") else ".txt")))
         rd = os.path.join(src, "README.md")
         if os.path.exists(rd): shutil.copy(rd, os.path.join(out, "AGENT_README.md"))
         meta = {"property": pid, "what_it_needs_to_manifest": "see AGENT_README.md (trigger section)", "verification": log}
